@@ -201,8 +201,8 @@ Proof. intros H. split; [eapply swap_length; eauto|]. intros x. eapply count_swa
 Lemma sizes_eq_swaps p l q : swaps p l = Some q -> sizes_eq p q.
 Proof. intros H. split; [|intros x]; eapply (count_swaps 0%N l p q H) || apply (count_swaps x l p q H). Qed.
 
-Lemma kl_flips_sizes old g u0 u1 wlen nb : forall k p gains locks saves cuts p' saves' cuts',
-  kl_flips old g u0 u1 wlen nb k p gains locks saves cuts = Ok (p', saves', cuts') -> sizes_eq p p'.
+Lemma kl_flips_sizes sp old g u0 u1 wlen nb : forall k p gains locks saves cuts p' saves' cuts',
+  kl_flips sp old g u0 u1 wlen nb k p gains locks saves cuts = Ok (p', saves', cuts') -> sizes_eq p p'.
 Proof.
   induction k as [|k IH]; intros p gains locks saves cuts p' saves' cuts'; cbn [kl_flips]; intros H.
   - inversion H; subst. apply sizes_eq_refl.
@@ -218,7 +218,7 @@ Proof.
     destruct ((g1 + g2 <=? 0) && nb).
     { inversion H; subst. apply sizes_eq_refl. }
     destruct (swap p pos1 pos2) as [q|] eqn:Es; [|discriminate].
-    destruct (edge_cut_chk g q) as [c|]; [|discriminate].
+    destruct (edge_cut_chk sp g q) as [c|]; [|discriminate].
     apply IH in H. eapply sizes_eq_trans; [eapply sizes_eq_swap; eauto|exact H].
 Qed.
 
@@ -251,25 +251,25 @@ Proof.
   assert (T : (if few_ids_return cfg then Ok p else Panic 1) = Ok q -> length q = length p /\ same_sizes p q).
   { destruct (few_ids_return cfg); [|discriminate]. intros E; inversion E; subst. split; [reflexivity|intros x; reflexivity]. }
   destruct (uniq [] p) as [|u0 [|u1 [|? ?]]]; try discriminate; auto.
-  destruct (edge_cut_chk g p) as [c|]; [|discriminate].
+  destruct (edge_cut_chk (sprs_cut cfg) g p) as [c|]; [|discriminate].
   apply kl_passes_sizes in H. exact H.
 Qed.
 
 (* ------------------------------------------- the flip loop: what it leaves *)
 
 (* [cuts] are the cut sizes after each of the [saves], starting from [p] *)
-Fixpoint trace_ok (g : graph) (p : list N) (saves : list (nat * nat)) (cuts : list Z) : Prop :=
+Fixpoint trace_ok (sp : bool) (g : graph) (p : list N) (saves : list (nat * nat)) (cuts : list Z) : Prop :=
   match saves, cuts with
   | [], [] => True
   | s :: ss, c :: cs =>
-      in_range (length p) s /\ c = edge_cut_sprs g (tswap p (fst s) (snd s))
-      /\ trace_ok g (tswap p (fst s) (snd s)) ss cs
+      in_range (length p) s /\ c = cut_of sp g (tswap p (fst s) (snd s))
+      /\ trace_ok sp g (tswap p (fst s) (snd s)) ss cs
   | _, _ => False
   end.
 
-Lemma trace_ok_app g : forall ss p cs a b,
-  trace_ok g p ss cs -> in_range (length p) (a, b) ->
-  trace_ok g p (ss ++ [(a, b)]) (cs ++ [edge_cut_sprs g (tswap (tswaps p ss) a b)]).
+Lemma trace_ok_app sp g : forall ss p cs a b,
+  trace_ok sp g p ss cs -> in_range (length p) (a, b) ->
+  trace_ok sp g p (ss ++ [(a, b)]) (cs ++ [cut_of sp g (tswap (tswaps p ss) a b)]).
 Proof.
   induction ss as [|[x y] ss IH]; intros p cs a b H R; destruct cs as [|c cs]; cbn [trace_ok] in H; try contradiction.
   - cbn [app trace_ok tswaps fst snd]. auto.
@@ -277,7 +277,7 @@ Proof.
     apply IH; [exact T|]. now rewrite tswap_length.
 Qed.
 
-Lemma trace_ok_range g : forall ss p cs, trace_ok g p ss cs ->
+Lemma trace_ok_range sp g : forall ss p cs, trace_ok sp g p ss cs ->
   Forall (in_range (length p)) ss /\ length cs = length ss.
 Proof.
   induction ss as [|s ss IH]; intros p cs H; destruct cs as [|c cs]; cbn [trace_ok] in H; try contradiction.
@@ -286,8 +286,8 @@ Proof.
     split; [constructor; assumption|cbn [length]; lia].
 Qed.
 
-Lemma trace_ok_nth g : forall ss p cs i c, trace_ok g p ss cs -> nth_opt cs i = Some c ->
-  c = edge_cut_sprs g (tswaps p (firstn (S i) ss)) /\ (i < length ss)%nat.
+Lemma trace_ok_nth sp g : forall ss p cs i c, trace_ok sp g p ss cs -> nth_opt cs i = Some c ->
+  c = cut_of sp g (tswaps p (firstn (S i) ss)) /\ (i < length ss)%nat.
 Proof.
   induction ss as [|[x y] ss IH]; intros p cs i c H Hn; destruct cs as [|c0 cs]; cbn [trace_ok] in H; try contradiction.
   - destruct i; discriminate.
@@ -326,8 +326,8 @@ Proof.
   rewrite Nat.sub_0_r in *. repeat split; auto. eapply nth_opt_Some; eauto.
 Qed.
 
-Lemma edge_cut_chk_some g p c : edge_cut_chk g p = Some c -> c = edge_cut_sprs g p.
-Proof. unfold edge_cut_chk. destruct (Nat.leb _ _); intros H; inversion H; reflexivity. Qed.
+Lemma edge_cut_chk_some sp g p c : edge_cut_chk sp g p = Some c -> c = cut_of sp g p.
+Proof. unfold edge_cut_chk. destruct (_ && _); intros H; inversion H; reflexivity. Qed.
 
 Lemma NoDup_snoc2 (l : list nat) a b : NoDup l -> ~ In a l -> ~ In b l -> a <> b -> NoDup (l ++ [a; b]).
 Proof.
@@ -338,13 +338,13 @@ Proof.
     + apply IH; auto.
 Qed.
 
-Lemma kl_flips_inv old g u0 u1 wlen nb p0 : u0 <> u1 ->
+Lemma kl_flips_inv sp old g u0 u1 wlen nb p0 : u0 <> u1 ->
   forall k p gains locks saves cuts p' saves' cuts',
-  p = tswaps p0 saves -> trace_ok g p0 saves cuts -> NoDup (flat saves) ->
+  p = tswaps p0 saves -> trace_ok sp g p0 saves cuts -> NoDup (flat saves) ->
   length locks = length p0 ->
   (forall i, In i (flat saves) -> nth_opt locks i = Some true) ->
-  kl_flips old g u0 u1 wlen nb k p gains locks saves cuts = Ok (p', saves', cuts') ->
-  p' = tswaps p0 saves' /\ trace_ok g p0 saves' cuts' /\ NoDup (flat saves').
+  kl_flips sp old g u0 u1 wlen nb k p gains locks saves cuts = Ok (p', saves', cuts') ->
+  p' = tswaps p0 saves' /\ trace_ok sp g p0 saves' cuts' /\ NoDup (flat saves').
 Proof.
   intros Hu. induction k as [|k IH]; intros p gains locks saves cuts p' saves' cuts' Hp Ht Hnd Hll Hlk; cbn [kl_flips]; intros H.
   - inversion H; subst. auto.
@@ -360,7 +360,7 @@ Proof.
     destruct ((g1 + g2 <=? 0) && nb).
     { inversion H; subst. auto. }
     destruct (swap p pos1 pos2) as [q|] eqn:Es; [|discriminate].
-    destruct (edge_cut_chk g q) as [c|] eqn:Ec; [|discriminate].
+    destruct (edge_cut_chk sp g q) as [c|] eqn:Ec; [|discriminate].
     apply argmax_last_none_spec in A1. destruct A1 as [P1 [L1 [_ B1]]].
     apply argmax_last_none_spec in A2. destruct A2 as [P2 [L2 [_ B2]]].
     assert (Hlen : length p = length p0) by (rewrite Hp; apply tswaps_length).
@@ -406,11 +406,11 @@ Proof.
 Qed.
 
 (* what the flip loop of one pass returns, started as the pass starts it *)
-Lemma kl_flips_pass old g u0 u1 wlen nb k p gains p' saves cuts : u0 <> u1 ->
-  kl_flips old g u0 u1 wlen nb k p gains (repeat false (length p)) [] [] = Ok (p', saves, cuts) ->
-  p' = tswaps p saves /\ trace_ok g p saves cuts /\ NoDup (flat saves).
+Lemma kl_flips_pass sp old g u0 u1 wlen nb k p gains p' saves cuts : u0 <> u1 ->
+  kl_flips sp old g u0 u1 wlen nb k p gains (repeat false (length p)) [] [] = Ok (p', saves, cuts) ->
+  p' = tswaps p saves /\ trace_ok sp g p saves cuts /\ NoDup (flat saves).
 Proof.
-  intros Hu H. eapply (kl_flips_inv old g u0 u1 wlen nb p Hu) in H; eauto.
+  intros Hu H. eapply (kl_flips_inv sp old g u0 u1 wlen nb p Hu) in H; eauto.
   - exact I.
   - constructor.
   - apply repeat_length.
@@ -431,26 +431,26 @@ Proof.
 Qed.
 
 Lemma kl_passes_cut cfg g u0 u1 wlen : u0 <> u1 -> old_rewind cfg = false ->
-  forall fuel iter cut p q, cut = edge_cut_sprs g p ->
-  kl_passes cfg g u0 u1 wlen fuel iter cut p = Ok q -> edge_cut_sprs g q <= edge_cut_sprs g p.
+  forall fuel iter cut p q, cut = cut_of (sprs_cut cfg) g p ->
+  kl_passes cfg g u0 u1 wlen fuel iter cut p = Ok q -> cut_of (sprs_cut cfg) g q <= cut_of (sprs_cut cfg) g p.
 Proof.
   intros Hu Hr. induction fuel as [|f IH]; intros iter cut p q Hc; cbn [kl_passes]; intros H; [discriminate|].
   destruct (match max_passes cfg with Some m => (m <=? iter)%N | None => false end).
   { inversion H; subst. lia. }
   destruct (kl_flips _ _ _ _ _ _ _ _ _ _ _ _) as [[[p' saves] cuts]| | |] eqn:Ef; try discriminate.
   apply kl_flips_pass in Ef; [|exact Hu]. destruct Ef as [Ep' [Ht Hnd]].
-  destruct (trace_ok_range _ _ _ _ Ht) as [Frange Hlen].
+  destruct (trace_ok_range _ _ _ _ _ Ht) as [Frange Hlen].
   assert (U : of_swaps (swaps p' saves) = Ok q -> q = p).
   { unfold of_swaps. destruct (swaps p' saves) as [r|] eqn:Er; [|discriminate]. intros E; inversion E; subst r.
     apply swaps_tswaps in Er. destruct Er as [-> _]. rewrite Ep'. apply tswaps_undo; assumption. }
   rewrite Hr in H. cbn [orb] in H.
   destruct (first_min 0 cuts None) as [[pos c]|] eqn:Em.
   - apply first_min_spec in Em. destruct Em as [Em|[_ Em]]; [discriminate|]. rewrite Nat.sub_0_r in Em.
-    destruct (trace_ok_nth _ _ _ _ _ _ Ht Em) as [Ecut _].
+    destruct (trace_ok_nth _ _ _ _ _ _ _ Ht Em) as [Ecut _].
     destruct (Z.ltb_spec c cut) as [Lt|Ge].
     + destruct (swaps p' (skipn (S pos) saves)) as [p''|] eqn:Er; [|discriminate].
       apply swaps_tswaps in Er. destruct Er as [Er _]. rewrite Ep', rewind_tail in Er by assumption.
-      assert (Ec'' : c = edge_cut_sprs g p'') by (rewrite Er; exact Ecut).
+      assert (Ec'' : c = cut_of (sprs_cut cfg) g p'') by (rewrite Er; exact Ecut).
       destruct (c >=? cut).
       * inversion H; subst q. lia.
       * apply (IH _ _ _ _ Ec'') in H. lia.
@@ -476,23 +476,33 @@ Proof.
   inversion ND as [|? ? Hn _]; subst. intros ->. apply Hn. left; reflexivity.
 Qed.
 
-(* the cut the code computes (CsMatView::edge_cut) never increases *)
-Theorem kl_cut_not_worse_sprs cfg fuel g wlen p q : old_rewind cfg = false ->
-  kl cfg fuel g wlen p = Ok q -> edge_cut_sprs g q <= edge_cut_sprs g p.
+(* the cut the code computes (the topology's own edge_cut) never increases *)
+Theorem kl_cut_not_worse_own cfg fuel g wlen p q : old_rewind cfg = false ->
+  kl cfg fuel g wlen p = Ok q -> cut_of (sprs_cut cfg) g q <= cut_of (sprs_cut cfg) g p.
 Proof.
   intros Hr. unfold kl.
-  assert (T : (if few_ids_return cfg then Ok p else Panic 1) = Ok q -> edge_cut_sprs g q <= edge_cut_sprs g p).
+  assert (T : (if few_ids_return cfg then Ok p else Panic 1) = Ok q ->
+              cut_of (sprs_cut cfg) g q <= cut_of (sprs_cut cfg) g p).
   { destruct (few_ids_return cfg); [|discriminate]. intros E; inversion E; subst. lia. }
   destruct (uniq [] p) as [|u0 [|u1 [|? ?]]] eqn:Eu; try discriminate; auto.
-  destruct (edge_cut_chk g p) as [c|] eqn:Ec; [|discriminate].
+  destruct (edge_cut_chk (sprs_cut cfg) g p) as [c|] eqn:Ec; [|discriminate].
   apply edge_cut_chk_some in Ec. apply kl_passes_cut; auto. eapply uniq_two; eauto.
 Qed.
 
-(* ... hence the edge cut of Topology::edge_cut on a CSR matrix (sorted rows) *)
-Theorem kl_cut_not_worse cfg fuel g wlen p q : old_rewind cfg = false -> rows_sorted g ->
+(* on a CsMatView: the cut of src/topology/sprs.rs *)
+Theorem kl_cut_not_worse_sprs cfg fuel g wlen p q : old_rewind cfg = false -> sprs_cut cfg = true ->
+  kl cfg fuel g wlen p = Ok q -> edge_cut_sprs g q <= edge_cut_sprs g p.
+Proof. intros Hr Hs H. pose proof (kl_cut_not_worse_own cfg fuel g wlen p q Hr H) as L. rewrite Hs in L. exact L. Qed.
+
+(* the edge cut of Topology::edge_cut: on any topology that does not override it (any
+   neighbour order), and on a CSR matrix (sorted rows) *)
+Theorem kl_cut_not_worse cfg fuel g wlen p q : old_rewind cfg = false ->
+  (sprs_cut cfg = true -> rows_sorted g) ->
   kl cfg fuel g wlen p = Ok q -> edge_cut g q <= edge_cut g p.
 Proof.
-  intros Hr Hs H. rewrite <- !edge_cut_sprs_eq by exact Hs. eapply kl_cut_not_worse_sprs; eauto.
+  intros Hr Hs H. pose proof (kl_cut_not_worse_own cfg fuel g wlen p q Hr H) as L.
+  unfold cut_of in L. destruct (sprs_cut cfg); [|exact L].
+  rewrite <- !edge_cut_sprs_eq by (apply Hs; reflexivity). exact L.
 Qed.
 
 (* ---------------------------------------------------------------- no panic *)
@@ -551,12 +561,20 @@ Proof.
   - cbn [orb] in Ha. apply IH; auto; lia.
 Qed.
 
-Lemma edge_cut_chk_ok g p : (length g <= length p)%nat -> edge_cut_chk g p = Some (edge_cut_sprs g p).
-Proof. intros H. unfold edge_cut_chk. now replace (Nat.leb (length g) (length p)) with true by (symmetry; apply Nat.leb_le; exact H). Qed.
+Lemma edge_cut_chk_ok sp g p : wf_graph g (length p) -> edge_cut_chk sp g p = Some (cut_of sp g p).
+Proof.
+  intros Hw. unfold edge_cut_chk. pose proof Hw as [Hl Hf].
+  replace (Nat.leb (length g) (length p)) with true by (symmetry; apply Nat.leb_le; lia).
+  apply wf_graphb_ok in Hw. unfold wf_graphb in Hw. apply andb_true_iff in Hw. destruct Hw as [_ Hw].
+  rewrite Hw, orb_true_r. reflexivity.
+Qed.
 
-Lemma kl_flips_no_panic g u0 u1 wlen nb n : wf_graph g n -> (n <= wlen)%nat ->
+Lemma cut_of_nonneg sp g p : nonneg_edges g -> 0 <= cut_of sp g p.
+Proof. intros H. unfold cut_of. destruct sp; [apply edge_cut_sprs_nonneg|apply edge_cut_nonneg]; exact H. Qed.
+
+Lemma kl_flips_no_panic sp g u0 u1 wlen nb n : wf_graph g n -> (n <= wlen)%nat ->
   forall k p gains locks saves cuts s, length p = n -> length gains = n -> length locks = n ->
-  kl_flips false g u0 u1 wlen nb k p gains locks saves cuts <> Panic s.
+  kl_flips sp false g u0 u1 wlen nb k p gains locks saves cuts <> Panic s.
 Proof.
   intros Hw Hwl. induction k as [|k IH]; intros p gains locks saves cuts s Lp Lg Ll; cbn [kl_flips]; [discriminate|].
   assert (Hwp : wf_graph g (length p)) by (rewrite Lp; exact Hw).
@@ -574,13 +592,13 @@ Proof.
   apply argmax_last_none_spec in A2. destruct A2 as [P2 [_ [_ B2]]].
   destruct ((g1 + g2 <=? 0) && nb); [discriminate|].
   rewrite (tswap_swap p pos1 pos2) by (split; cbn [fst snd]; lia).
-  rewrite edge_cut_chk_ok by (rewrite tswap_length; lia).
+  rewrite edge_cut_chk_ok by (rewrite tswap_length, Lp; split; assumption).
   apply IH; rewrite ?tswap_length, ?set_nth_length; lia.
 Qed.
 
-Lemma kl_flips_no_oof old g u0 u1 wlen nb : forall k p gains locks saves cuts,
-  kl_flips old g u0 u1 wlen nb k p gains locks saves cuts <> OutOfFuel /\
-  forall e, kl_flips old g u0 u1 wlen nb k p gains locks saves cuts <> Err e.
+Lemma kl_flips_no_oof sp old g u0 u1 wlen nb : forall k p gains locks saves cuts,
+  kl_flips sp old g u0 u1 wlen nb k p gains locks saves cuts <> OutOfFuel /\
+  forall e, kl_flips sp old g u0 u1 wlen nb k p gains locks saves cuts <> Err e.
 Proof.
   induction k as [|k IH]; intros p gains locks saves cuts; cbn [kl_flips]; [split; [|intros e]; discriminate|].
   destruct (add_gains g p 0 gains) as [gains1|]; [|split; [|intros e]; discriminate].
@@ -592,7 +610,7 @@ Proof.
   destruct (argmax_last u1 wlen 0 p gains2 locks None) as [[pos2 g2]|]; [|split; [|intros e]; discriminate].
   destruct ((g1 + g2 <=? 0) && nb); [split; [|intros e]; discriminate|].
   destruct (swap p pos1 pos2) as [q|]; [|split; [|intros e]; discriminate].
-  destruct (edge_cut_chk g q) as [c|]; [|split; [|intros e]; discriminate].
+  destruct (edge_cut_chk sp g q) as [c|]; [|split; [|intros e]; discriminate].
   apply IH.
 Qed.
 
@@ -604,9 +622,9 @@ Proof.
   destruct (match max_passes cfg with Some m => (m <=? iter)%N | None => false end); [discriminate|].
   rewrite Hs, Hr. cbn [orb].
   destruct (kl_flips _ _ _ _ _ _ _ _ _ _ _ _) as [[[p' saves] cuts]| | |] eqn:Ef; try discriminate.
-  2:{ exfalso. revert Ef. apply (kl_flips_no_panic g u0 u1 wlen _ (length p)); auto; apply repeat_length. }
+  2:{ exfalso. revert Ef. apply (kl_flips_no_panic _ g u0 u1 wlen _ (length p)); auto; apply repeat_length. }
   apply kl_flips_pass in Ef; [|exact Hu]. destruct Ef as [Ep' [Ht Hnd]].
-  destruct (trace_ok_range _ _ _ _ Ht) as [Frange Hlen].
+  destruct (trace_ok_range _ _ _ _ _ Ht) as [Frange Hlen].
   assert (Lp' : length p' = length p) by (rewrite Ep'; apply tswaps_length).
   assert (U : of_swaps (swaps p' saves) <> Panic s).
   { rewrite tswaps_swaps by (rewrite Lp'; exact Frange). discriminate. }
@@ -628,7 +646,7 @@ Theorem kl_no_panic cfg fuel g wlen p s : old_scan cfg = false -> old_rewind cfg
 Proof.
   intros Hs Hr Hfew Hw Hwl Hu. unfold kl. rewrite Hfew.
   destruct (uniq [] p) as [|u0 [|u1 [|? ?]]] eqn:Eu; try discriminate; [|cbn [length] in Hu; lia].
-  rewrite edge_cut_chk_ok by (destruct Hw as [-> _]; lia).
+  rewrite edge_cut_chk_ok by exact Hw.
   apply kl_passes_no_panic; auto. eapply uniq_two; eauto.
 Qed.
 
@@ -651,23 +669,23 @@ Proof.
   destruct (swaps p' (skipn (S pos) saves)) as [p''|]; [|discriminate].
   destruct (Z.geb_spec c cut) as [Ge|Lt]; [discriminate|].
   apply first_min_spec in Em. destruct Em as [Em|[_ Em]]; [discriminate|]. rewrite Nat.sub_0_r in Em.
-  destruct (trace_ok_nth _ _ _ _ _ _ Ht Em) as [Ecut _].
-  assert (0 <= c) by (rewrite Ecut; apply edge_cut_sprs_nonneg; exact Hn).
+  destruct (trace_ok_nth _ _ _ _ _ _ _ Ht Em) as [Ecut _].
+  assert (0 <= c) by (rewrite Ecut; apply cut_of_nonneg; exact Hn).
   apply IH; [assumption|]. lia.
 Qed.
 
 (* every pass that goes on lowers the (non-negative, integer) cut: kl_fuel passes suffice *)
-Theorem kl_terminates cfg fuel g wlen p : nonneg_edges g -> (kl_fuel g p <= fuel)%nat ->
+Theorem kl_terminates cfg fuel g wlen p : nonneg_edges g -> (kl_fuel (sprs_cut cfg) g p <= fuel)%nat ->
   kl cfg fuel g wlen p <> OutOfFuel.
 Proof.
   intros Hn Hf. unfold kl.
   destruct (uniq [] p) as [|u0 [|u1 [|? ?]]] eqn:Eu; try discriminate; try (destruct (few_ids_return cfg); discriminate).
   unfold kl_fuel in Hf.
-  destruct (edge_cut_chk g p) as [c|] eqn:Ec; [|discriminate].
+  destruct (edge_cut_chk (sprs_cut cfg) g p) as [c|] eqn:Ec; [|discriminate].
   apply edge_cut_chk_some in Ec.
   apply kl_passes_terminates; auto.
   - eapply uniq_two; eauto.
-  - rewrite Ec. apply edge_cut_sprs_nonneg. exact Hn.
+  - rewrite Ec. apply cut_of_nonneg. exact Hn.
   - lia.
 Qed.
 
@@ -710,18 +728,18 @@ Qed.
    returns has the input's part sizes and a cut that is not larger *)
 Theorem kl_total cfg g wlen p : old_scan cfg = false -> old_rewind cfg = false ->
   few_ids_return cfg = true ->
-  wf_graph g (length p) -> rows_sorted g -> nonneg_edges g ->
+  wf_graph g (length p) -> (sprs_cut cfg = true -> rows_sorted g) -> nonneg_edges g ->
   (length p <= wlen)%nat -> (length (uniq [] p) <= 2)%nat ->
-  exists q, kl cfg (kl_fuel g p) g wlen p = Ok q /\
+  exists q, kl cfg (kl_fuel (sprs_cut cfg) g p) g wlen p = Ok q /\
             length q = length p /\ same_sizes p q /\ edge_cut g q <= edge_cut g p.
 Proof.
   intros Hs Hr Hfew Hw Hso Hn Hwl Hu.
-  destruct (kl cfg (kl_fuel g p) g wlen p) as [q|e|s|] eqn:E.
+  destruct (kl cfg (kl_fuel (sprs_cut cfg) g p) g wlen p) as [q|e|s|] eqn:E.
   - exists q. split; [reflexivity|]. destruct (kl_sizes _ _ _ _ _ _ E) as [L S].
     split; [exact L|]. split; [exact S|]. eapply kl_cut_not_worse; eauto.
   - exfalso. revert E. unfold kl.
     destruct (uniq [] p) as [|u0 [|u1 [|? ?]]]; try discriminate; try (destruct (few_ids_return cfg); discriminate).
-    destruct (edge_cut_chk g p); [apply kl_passes_no_err|discriminate].
+    destruct (edge_cut_chk (sprs_cut cfg) g p); [apply kl_passes_no_err|discriminate].
   - exfalso. revert E. apply kl_no_panic; auto.
   - exfalso. revert E. apply kl_terminates; auto.
 Qed.
@@ -731,7 +749,8 @@ Qed.
 Definition path4 : graph :=
   [[(1%nat, 1)]; [(0%nat, 1); (2%nat, 1)]; [(1%nat, 1); (3%nat, 1)]; [(2%nat, 1)]].
 Definition kl_cfg_of mp mf mb os orw :=
-  {| max_passes := mp; max_flips := mf; max_bad := mb; old_scan := os; old_rewind := orw; few_ids_return := true |}.
+  {| max_passes := mp; max_flips := mf; max_bad := mb; old_scan := os; old_rewind := orw; few_ids_return := true;
+     sprs_cut := true |}.
 
 (* before 625d2b1: the rewind kept the first swap even when it worsened the cut
    (path 0-1-2-3, parts 0011, one flip allowed, max_bad_move_in_a_row = 1: cut 1 -> 2) *)
@@ -757,7 +776,21 @@ Proof. split; vm_compute; reflexivity. Qed.
 (* before 3ea376d: a one-part (or empty) input hit the `unimplemented!()` of the k-way case *)
 Lemma kl_old_one_part_panics :
   kl {| max_passes := None; max_flips := None; max_bad := 1%N; old_scan := false; old_rewind := false;
-        few_ids_return := false |} 10 path4 4 [0;0;0;0]%N = Panic 1
+        few_ids_return := false; sprs_cut := true |} 10 path4 4 [0;0;0;0]%N = Panic 1
   /\ kl (kl_cfg_of None None 1%N false false) 10 path4 4 [0;0;0;0]%N = Ok [0;0;0;0]%N
   /\ kl (kl_cfg_of None None 1%N false false) 10 [] 0 [] = Ok [].
 Proof. repeat split; vm_compute; reflexivity. Qed.
+
+(* on a topology that does not override edge_cut (Grid, &T, adjacency lists in any neighbour
+   order): no sortedness premise *)
+Theorem kl_cut_not_worse_generic cfg fuel g wlen p q : old_rewind cfg = false -> sprs_cut cfg = false ->
+  kl cfg fuel g wlen p = Ok q -> edge_cut g q <= edge_cut g p.
+Proof. intros Hr Hs. apply kl_cut_not_worse; [exact Hr|]. rewrite Hs. discriminate. Qed.
+
+(* the two cut functions differ on unsorted rows (2x2 grid in coupe::Grid's neighbour order
+   x-1, x+1, y-1, y+1; parts 0|1|1|0): take_while stops at the first neighbour >= v *)
+Definition grid22_unsorted : graph :=
+  [[(1%nat, 1); (2%nat, 1)]; [(0%nat, 1); (3%nat, 1)]; [(3%nat, 1); (0%nat, 1)]; [(2%nat, 1); (1%nat, 1)]].
+Lemma cut_sprs_differs_unsorted :
+  edge_cut grid22_unsorted [0;1;1;0]%N = 4 /\ edge_cut_sprs grid22_unsorted [0;1;1;0]%N = 3.
+Proof. split; vm_compute; reflexivity. Qed.
